@@ -1,4 +1,5 @@
 import St4sd.Lemmas.C13
+import St4sd.Lemmas.C13Sub
 /-!
 # C13 — A repeating observer sees its producers' final output and then stops
 
@@ -7,6 +8,11 @@ Every theorem quantifies over ALL histories `h : List Op`: arbitrary interleavin
 sub-steps with the environment operations (producers finished, new output, external kill, kill-delay timer,
 long wait), arbitrary task outcomes (success / failure / the task generator raises).
 `exec cfg h` is the state reached from `init cfg` by `h`.
+
+The second part is about the model `St4sd.RepeatSub` (Model/RepeatSub.lean) of the subscription in
+`ComponentState.stageIn` that decides WHEN `notify_all_producers_finished` is called, for all lists of producer
+references (repetitions included) and all orders of stage-in / producer finishes, and about the composed system
+(subscription + poll protocol) in which `fin` is no free operation of the environment any more.
 -/
 namespace St4sd.C13
 open St4sd.Repeat
@@ -154,5 +160,140 @@ def histRaises : List Op :=
 example : let s := exec { cfgFixed with alwaysNew := true } histRaises
     s.cause = some .retries ∧ s.pc = .stopped ∧ s.pollsFin = 4 ∧ s.books = 4 ∧ s.retries = 0 ∧
     s.execLog.length = 5 := by decide
+
+/-! ## The subscription that delivers the producers-finished notification -/
+
+open St4sd.RepeatSub
+
+/-- The notification is delivered exactly when ALL producers are finished and not before: for every list of
+producer references `refs` (a producer may be referenced several times) and every sequence `h` of stage-in /
+component finishes / engine exits (any order, components that are no producers included, producers already
+finished before stage-in included), `notify_all_producers_finished` has been called iff the observer was
+staged in and every referenced producer has finished. -/
+theorem notified_iff_all_producers_finished (refs : List Pid) (h : List SubOp) :
+    (subExec refs h).notified = true ↔ (SubOp.stageIn ∈ h ∧ ∀ p ∈ refs, SubOp.pfin p ∈ h) := by
+  have hI := subInv_all refs h
+  simp only [SubInv] at hI
+  obtain ⟨_, h2, h3⟩ := hI
+  have hst : (subExec refs h).stagedIn = true ↔ SubOp.stageIn ∈ h := by
+    show (subRun (Sub.init refs) h).stagedIn = true ↔ _
+    rw [stagedIn_iff]; simp [Sub.init]
+  have hfin : ∀ p, p ∈ (subExec refs h).finished ↔ SubOp.pfin p ∈ h := fun p => by
+    show p ∈ (subRun (Sub.init refs) h).finished ↔ _
+    rw [finished_iff]; simp [Sub.init]
+  cases hs : (subExec refs h).stagedIn with
+  | false =>
+    have hn := (h2 hs).2.1
+    have : ¬ SubOp.stageIn ∈ h := fun hm => by
+      have h' := hst.mpr hm
+      rw [hs] at h'
+      exact absurd h' (by decide)
+    simp [hn, this]
+  | true =>
+    obtain ⟨hw, hn, _⟩ := h3 hs
+    have hm : SubOp.stageIn ∈ h := hst.mp hs
+    rw [hn, hw, List.filter_eq_nil_iff]
+    constructor
+    · intro hall
+      refine ⟨hm, fun p hp => (hfin p).mp ?_⟩
+      have := hall p hp
+      simpa using this
+    · intro ⟨_, hall⟩ p hp
+      have := (hfin p).mpr (hall p hp)
+      simpa using this
+
+/-- it is called at most once -/
+theorem notified_at_most_once (refs : List Pid) (h : List SubOp) : (subExec refs h).count ≤ 1 := by
+  have hI := subInv_all refs h
+  simp only [SubInv] at hI
+  obtain ⟨_, h2, h3⟩ := hI
+  cases hs : (subExec refs h).stagedIn with
+  | false => have := (h2 hs).2.2; omega
+  | true =>
+    have := (h3 hs).2.2
+    cases hn : (subExec refs h).notified <;> simp [hn, b2n] at this <;> omega
+
+/-- The composed system is the poll protocol run on the projected history: every theorem about all histories
+of `St4sd.Repeat` holds for the engine of the composed system. -/
+theorem composed_is_history (cfg : Cfg) (refs : List Pid) (h : List COp) :
+    (cexec cfg refs h).eng = exec cfg (project (Sub.init refs) h) ∧
+    (cexec cfg refs h).sub = subExec refs (subOps h) :=
+  ⟨crun_eng cfg h _, crun_sub cfg h _⟩
+
+/-- In the composed system the engine's producers-finished flag means: the observer was staged in and ALL
+its producers have finished. -/
+theorem prodDone_iff_all_producers_finished (cfg : Cfg) (refs : List Pid) (h : List COp) :
+    (cexec cfg refs h).eng.prodDone = true ↔
+      (SubOp.stageIn ∈ subOps h ∧ ∀ p ∈ refs, SubOp.pfin p ∈ subOps h) := by
+  rw [← notified_iff_all_producers_finished, (composed_is_history cfg refs h).1]
+  show (run cfg (init cfg) _).prodDone = true ↔ _
+  rw [run_prodDone]
+  have hm : Op.env .fin ∈ project (Sub.init refs) h ↔ (subExec refs (subOps h)).count ≠ 0 :=
+    fin_mem_project h (Sub.init refs)
+  have hI := subInv_all refs (subOps h)
+  simp only [SubInv] at hI
+  obtain ⟨_, h2, h3⟩ := hI
+  rw [show (init cfg).prodDone = false from rfl, Bool.false_or, decide_eq_true_iff, hm]
+  cases hs : (subExec refs (subOps h)).stagedIn with
+  | false => obtain ⟨_, hn, hc⟩ := h2 hs; simp [hn, hc]
+  | true =>
+    obtain ⟨_, _, hc⟩ := h3 hs
+    cases hn : (subExec refs (subOps h)).notified <;> simp [hn, hc, b2n]
+
+/-- Clause 2a for the composed system: as long as some producer has not finished (or the observer was not
+staged in), nobody but an external `kill()` sets the cancel event. -/
+theorem no_early_stop_all_producers (cfg : Cfg) (refs : List Pid) (h : List COp) :
+    (cexec cfg refs h).eng.cancel = true →
+    ¬ (SubOp.stageIn ∈ subOps h ∧ ∀ p ∈ refs, SubOp.pfin p ∈ subOps h) →
+    (cexec cfg refs h).eng.cause = some .external := by
+  intro hc hn
+  have hp : (cexec cfg refs h).eng.prodDone = false := by
+    cases hpd : (cexec cfg refs h).eng.prodDone with
+    | false => rfl
+    | true => exact absurd ((prodDone_iff_all_producers_finished cfg refs h).mp hpd) hn
+  rw [(composed_is_history cfg refs h).1] at hc hp ⊢
+  exact no_early_stop cfg _ hc hp
+
+/-- a stop decided by the engine's own bookkeeping happens only after ALL producers finished -/
+theorem self_stop_after_all_producers_finished (cfg : Cfg) (refs : List Pid) (h : List COp) :
+    selfCause (cexec cfg refs h).eng →
+    (SubOp.stageIn ∈ subOps h ∧ ∀ p ∈ refs, SubOp.pfin p ∈ subOps h) := by
+  intro hs
+  apply (prodDone_iff_all_producers_finished cfg refs h).mp
+  rw [(composed_is_history cfg refs h).1] at hs ⊢
+  exact self_stop_after_finished cfg _ hs
+
+/-- Clause 3 for the composed system: `pollsFin` (polls begun with the flag set, i.e. by
+`prodDone_iff_all_producers_finished` with all producers finished) is bounded by `repeatRetries + 1`. -/
+theorem bounded_after_all_producers_finished (cfg : Cfg) (hf : Fixed cfg) (refs : List Pid) (h : List COp) :
+    (cexec cfg refs h).eng.pollsFin ≤ cfg.retries + 1 := by
+  rw [(composed_is_history cfg refs h).1]
+  exact (bounded_after_finished cfg hf _).1
+
+/-! non-vacuity -/
+
+/-- two references to producer 1, one to producer 0 (of an earlier stage, finished before stage-in), a
+component 7 that is no producer: the notification comes with the finish of producer 1, not at stage-in and
+not with the finish of 7 -/
+example :
+    (subExec [1, 0, 1] [.pfin 0, .stageIn]).notified = false ∧
+    (subExec [1, 0, 1] [.pfin 0, .stageIn, .pfin 7, .pexit 1]).notified = false ∧
+    (subExec [1, 0, 1] [.pfin 0, .stageIn, .pfin 7, .pexit 1, .pfin 1]).notified = true ∧
+    (subExec [1, 0, 1] [.pfin 0, .stageIn, .pfin 7, .pexit 1, .pfin 1, .pfin 1, .stageIn]).count = 1 := by decide
+
+/-- all producers finished before stage-in (or no producers): notified at stage-in -/
+example : (subExec [0, 2] [.pfin 2, .pfin 0, .stageIn]).notified = true ∧
+    (subExec [] [.stageIn]).notified = true ∧ (subExec [0] [.pfin 0]).notified = false := by decide
+
+/-- a composed history: producer 0 finished earlier, stage-in, output, a launch, producer 1 finishes while the
+task runs, next poll launches again and succeeds: stopped by `success` after all producers finished -/
+def histComposed : List COp :=
+  [.ev (.sub (.pfin 0)), .ev (.sub .stageIn), .ev (.x .out), .eng .ok, .eng .ok, .eng .ok, .eng .ok,
+   .ev (.x .out), .ev (.sub (.pfin 1)), .eng .ok, .eng .ok,
+   .eng .ok, .eng .ok, .eng .ok, .eng .ok, .eng .ok, .eng .ok, .eng .ok, .eng .ok]
+
+example : let c := cexec cfgFixed [1, 0] histComposed
+    c.eng.cause = some .success ∧ c.eng.prodDone = true ∧ c.eng.pc = .stopped ∧ c.eng.execLog.length = 2 ∧
+    c.sub.notified = true ∧ c.sub.count = 1 := by decide
 
 end St4sd.C13
